@@ -19,7 +19,7 @@ VERDICT = "c13_verdict"
 EXPLAIN = "c13_explain"
 CASES_PER_FILE = 60
 CASE_TIMEOUT = 20
-TIERS = {"quick": {"n": 800}, "thorough": {"n": 4500, "exhaustive": True}}
+TIERS = {"quick": {"n": 1500}, "thorough": {"n": 4500, "exhaustive": True}}
 RULE = ("base function: 0-4 positional-or-keyword parameters with every default suffix, optional *args, 0-3 keyword-only "
         "parameters each with/without default, optional **kwargs, annotations incl. return, sync/async, def/lambda, "
         "docstring None/''/text, __defaults__ ()/None, default objects incl. None/False/0/''/()/NO_DEFAULT/Ellipsis, and "
@@ -942,4 +942,9 @@ def extra_evidence(results):
                 cnt["expected_with_special_default"] += 1
             cnt["hide_wrapped_steps"] += bool(s_.get("hide_wrapped"))
             cnt["update_dict_false_steps"] += not s_.get("update_dict", True)
-    return {"regimes_reached": cnt}
+    ncalls = sum(len(r["case"]["calls"]) for r in results if not r.get("abnormal"))
+    return {"regimes_reached": cnt,
+            "spec_validation": {"reference": "the CPython interpreter: the real base function called directly on every "
+                                             "call shape; Coq checks Spec.bind(observed signature, call) = observed "
+                                             "outcome (frame or TypeError) inside holds",
+                                "pairs_compared": ncalls}}
